@@ -40,10 +40,14 @@ TRecv == /\ Ev("Recv") /\ ~tainted /\ "dead" \notin DOMAIN E
               \/ /\ ~(Healthy(E) /\ ReactOK(t[3], E, phase))
                  /\ t[6] \in AllowedDev /\ DevMatch(t, E) /\ UseDev(t[6])
                  /\ phase' = phase /\ tainted' = TRUE
+\* input for a connection the node has already closed (possible after an "any" class): nothing may happen
+TRecvClosed == /\ Ev("Recv") /\ ~tainted /\ "dead" \notin DOMAIN E /\ phase = "Closed"
+               /\ Healthy(E) /\ E.closed /\ E.read = 0
+               /\ UNCHANGED <<phase, tainted>>
 \* after an accepted known failure the node is dead / deadlocked / busy: the rest of the behaviour carries no information
 TSkip == /\ tainted /\ l <= Len(Trace) /\ Trace[l].ev # "reset" /\ "panic" \notin DOMAIN Trace[l]
          /\ l' = l + 1 /\ UNCHANGED <<phase, tainted>>
-TraceNext == TReset \/ TConnect \/ TRecv \/ TSkip
+TraceNext == TReset \/ TConnect \/ TRecv \/ TRecvClosed \/ TSkip
 TraceSpec == l = 1 /\ phase = "PreHs" /\ tainted = FALSE /\ [][TraceNext]_tv
 PhaseOK == phase \in {"PreHs", "ProtoHs", "Est", "Closed"}
 ====
